@@ -26,6 +26,7 @@ type grepCase struct {
 	Before  int      `json:"before"`
 	After   int      `json:"after"`
 	Max     int      `json:"max"`
+	NoNl    bool     `json:"nonl"` // the last line of the file is not newline-terminated
 }
 
 func init() {
@@ -46,7 +47,9 @@ func init() {
 		for i, l := range c.Lines {
 			texts[i] = strconv.Itoa(100000+i)[1:] + ":" + string(unhx(l))
 			sb.WriteString(texts[i])
-			sb.WriteByte('\n')
+			if !c.NoNl || i < len(c.Lines)-1 {
+				sb.WriteByte('\n')
+			}
 		}
 		f.WriteString(sb.String())
 		f.Close()
@@ -92,6 +95,9 @@ func init() {
 		for l := range lines {
 			content := l.Content.String()
 			n, perr := strconv.Atoi(strings.SplitN(content, ":", 2)[0])
+			if c.NoNl && perr == nil && n == len(texts)-1 && content == texts[n] {
+				content += "\n" // the unterminated last line (its delivery form is C01's subject)
+			}
 			if perr != nil || n < 0 || n >= len(texts) || content != texts[n]+"\n" {
 				bad = append(bad, hx([]byte(content)))
 				continue
